@@ -39,4 +39,34 @@ def fq2FromSliceE (s : List UInt8) : Except U256Error Fq2 :=
   | some v => .ok v
   | none => .error .NotMember
 
+/-! ### `random`: the generator is a script of `u64` draws (the convention of the limb level, `Gen/LimbEquiv.lean`
+`Fp_random_equiv`: `Fq::random(rng)` consumes eight draws, limb 0 first, reduces the 512-bit number modulo p and stores the
+remainder *as the Montgomery representative*).  SPEC definitions: value-level reading of that, then component by component
+in the order the source draws them. -/
+
+/-- `Fq::random(rng)`: remaining script, element -/
+def Fq.randomS (rng : List Nat) : List Nat × Fq := (rng.drop 8, Fq.ofNat (Fp.into_u256 paramsQ (Fp.random paramsQ rng)))
+/-- `Fr::random(rng)` -/
+def Fr.randomS (rng : List Nat) : List Nat × Fr := (rng.drop 8, Fr.ofNat (Fp.into_u256 paramsR (Fp.random paramsR rng)))
+/-- `Fq2::random`: `c0` is drawn first -/
+def Fq2.randomS (rng : List Nat) : List Nat × Fq2 :=
+  let a := Fq.randomS rng
+  let b := Fq.randomS a.1
+  (b.1, { c0 := a.2, c1 := b.2 })
+/-- `Fq4::random`: `c0` is drawn first -/
+def Fq4.randomS (rng : List Nat) : List Nat × Fq4 :=
+  let a := Fq2.randomS rng
+  let b := Fq2.randomS a.1
+  (b.1, { c0 := a.2, c1 := b.2 })
+/-- `Fq12::random`: `c0`, `c1`, `c2` in this order -/
+def Fq12.randomS (rng : List Nat) : List Nat × Fq12 :=
+  let a := Fq4.randomS rng
+  let b := Fq4.randomS a.1
+  let c := Fq4.randomS b.1
+  (c.1, { c0 := a.2, c1 := b.2, c2 := c.2 })
+/-- `G::random`: the generator times a random scalar -/
+def G.randomS {F} [FieldElement F] [GroupParams F] (rng : List Nat) : List Nat × G F :=
+  let a := Fr.randomS rng
+  (a.1, G.mul G.one a.2)
+
 end Sm9
